@@ -670,6 +670,9 @@ type ShortTermRPS struct {
 	NumNegativePics byte
 	NumPositivePics byte
 	NumDeltaPocs    byte
+	// numUsedByCurrPic is the number of entries with used_by_curr_pic_flag = 1 of an inter-predicted set
+	// (DeltaPocS0/S1 and UsedByCurrPicS0/S1 are not derived for such a set)
+	numUsedByCurrPic byte
 }
 
 func (st ShortTermRPS) countInUsePics() uint8 {
@@ -684,6 +687,8 @@ func (st ShortTermRPS) countInUsePics() uint8 {
 			NumPicTotalCurr++
 		}
 	}
+	// inter-predicted set: every entry with used_by_curr_pic_flag = 1 is part of the derived set (7-61), (7-62)
+	NumPicTotalCurr += st.numUsedByCurrPic
 	return NumPicTotalCurr
 }
 
@@ -722,6 +727,9 @@ func parseShortTermRPS(r *bits.EBSPReader, idx, numSTRefPicSets byte, sps *SPS) 
 			}
 			if usedByCurrPicFlag || useDeltaFlag {
 				stps.NumDeltaPocs++
+			}
+			if usedByCurrPicFlag {
+				stps.numUsedByCurrPic++
 			}
 		}
 	} else {
